@@ -354,9 +354,41 @@ def gen_pull_big(rng, fx, name):
             "_manifest": man, "_served": None, "_big": True}
 
 
+MIB = 1 << 20
+
+
+def gen_abort(rng, fx, uploaded, used):
+    """a request whose body ends with a read error after k bytes were received (the client went away): k = 0, a few
+    bytes, more than 1 MiB.  A blob upload (of a fixture, padded with zeros for the long one) or a create request."""
+    size = rng.choice(["zero", "small", "small", "big", "big"])
+    if rng.random() < 0.7:
+        k = rng.choice(fx.names if rng.random() < 0.8 or not uploaded else uploaded)
+        b = fx.data[k]
+        op = {"op": "blob", "digest": "sha256:" + sha(b), "data": b.hex(), "_fx": k}
+        if size == "big":
+            op["zeros"] = 2 * MIB
+            op["abort"] = MIB + rng.randint(1, 200000)
+        else:
+            op["abort"] = 0 if size == "zero" else rng.randint(1, max(1, len(b) - 1))
+        return op
+    if uploaded and rng.random() < 0.5:
+        op = {"op": "create", "name": rnd_name(rng, used), "files": {"model.gguf": "sha256:" + sha(fx.data[rng.choice(uploaded)])}}
+    else:
+        op = {"op": "create", "name": rnd_name(rng, used), "from": rnd_name(rng, used, 0.9)}
+    op["system"] = rng.choice(SYSTEMS)
+    op["template"] = rng.choice(TEMPLATES)
+    if size == "big":
+        op["pad"] = MIB + MIB // 2
+        op["abort"] = MIB + rng.randint(1, 200000)
+    else:
+        op["abort"] = 0 if size == "zero" else rng.randint(1, 60)
+    return op
+
+
 def gen_history(rng, fx, n_ops, klass):
     """one history; returns list of ops (harness format, plus private '_' keys used for the oracle)"""
     ops, used, uploaded = [], [], []
+    p_abort = 0.75 if klass == "abort" else 0.12
     if klass in ("mixed", "long") and rng.random() < 0.3:
         ops += gen_links(rng)
 
@@ -381,6 +413,12 @@ def gen_history(rng, fx, n_ops, klass):
 
     for _ in range(n_ops):
         r = rng.random()
+        if klass == "abort":
+            r = 0.10 + r * 0.55 if uploaded and rng.random() < 0.7 else r    # mostly creates
+        if 0.10 <= r < 0.55 and uploaded:
+            # a fault before a create: nothing of the failed request may show in the layers made afterwards
+            while rng.random() < p_abort:
+                ops.append(gen_abort(rng, fx, uploaded, used))
         if klass == "pull" and rng.random() < 0.3:
             name = rnd_name(rng, used, 0.5)
             ops.append(gen_pull(rng, fx, name, rng.choice([None] * 5 + ["no-manifest", "missing-blob", "corrupt-last"])))
@@ -398,7 +436,7 @@ def gen_history(rng, fx, n_ops, klass):
             elif rng.random() < 0.3:
                 upload(k)
             op = {"op": "create", "name": rnd_name(rng, used), "files": {"model.gguf": d}, "_fx": k}
-            overrides(op)
+            overrides(op, 0.9 if klass == "abort" else 0.45)
             ops.append(op)
             used.append(op["name"])
         elif r < 0.55:
@@ -406,7 +444,7 @@ def gen_history(rng, fx, n_ops, klass):
             op = {"op": "create", "name": rnd_name(rng, used, 0.7), "from": src}
             if rng.random() < 0.25:
                 op["name"] = src  # re-create in place
-            overrides(op, 0.6)
+            overrides(op, 0.9 if klass == "abort" else 0.6)
             ops.append(op)
             used.append(op["name"])
         elif r < 0.70:
@@ -435,6 +473,23 @@ def gen_history(rng, fx, n_ops, klass):
 
 
 CORPUS = [
+    # faults before a create: uploads and a create request whose bodies end with a read error after 0 / a few /
+    # more than 2^20 bytes; the layers the server makes afterwards (system, template, params, messages, license,
+    # config) must be stored under the hash of their own content
+    ("aborted-requests-then-create", lambda fx: [
+        {"op": "blob", "digest": "sha256:" + sha(fx.data["g0"]), "data": fx.data["g0"].hex(), "_fx": "g0"},
+        {"op": "blob", "digest": "sha256:" + sha(fx.data["g1"]), "data": fx.data["g1"].hex(), "_fx": "g1", "abort": 0},
+        {"op": "blob", "digest": "sha256:" + sha(fx.data["g1"]), "data": fx.data["g1"].hex(), "_fx": "g1", "abort": 17},
+        {"op": "create", "name": "a1", "files": {"m.gguf": "sha256:" + sha(fx.data["g0"])}, "_fx": "g0", "system": SYSTEMS[0],
+         "template": TEMPLATES[1], "parameters": PARAMS[2], "messages": MESSAGES[1], "license": list(LICENSES)},
+        {"op": "blob", "digest": "sha256:" + sha(fx.data["gt"]), "data": fx.data["gt"].hex(), "_fx": "gt", "zeros": 2 * MIB, "abort": MIB + 4097},
+        {"op": "create", "name": "a2", "from": "a1", "system": SYSTEMS[1], "parameters": PARAMS[1]},
+        {"op": "create", "name": "a3", "from": "a1", "system": SYSTEMS[2], "abort": 23},
+        {"op": "create", "name": "a3", "from": "a2", "system": SYSTEMS[2], "pad": MIB + MIB // 2, "abort": MIB + 5},
+        {"op": "create", "name": "a4", "from": "a2", "template": TEMPLATES[2], "messages": MESSAGES[0], "license": LICENSES[0]},
+        {"op": "blob", "digest": "sha256:" + sha(fx.data["g1"]), "data": fx.data["g1"].hex(), "_fx": "g1"},
+        {"op": "startup"},
+    ]),
     # getExistingName: the stored names h/ns/Model:t and h/ns2/model:t2, then create of a case variant
     ("case-two-stored", lambda fx: [
         {"op": "blob", "digest": "sha256:" + sha(fx.data["g0"]), "data": fx.data["g0"].hex(), "_fx": "g0"},
@@ -519,6 +574,8 @@ CORPUS = [
 def op_target(op):
     """the names an operation is about (folded): only these may change"""
     k = op["op"]
+    if op.get("abort") is not None:
+        return set()
     if k in ("create", "delete", "pull"):
         return {fold(parse_name(op["name"]))}
     if k == "copy":
@@ -624,6 +681,8 @@ def op_to_coq(ids, fx, op, before, after):
 
 def act_to_coq(ids, fx, op, before, after):
     """an element of a history for the model: an API operation / start-up, or the legacy scaffolding"""
+    if op.get("abort") is not None:
+        return "(AAbortBlob %s)" % ids.digest(op["digest"]) if op["op"] == "blob" else "AAbortReq"
     if op["op"] == "legacy":
         return "(ALegacy %s %s)" % (cq_list([cq_N(ids.h(h)) for h in op.get("blobs", [])], "N"),
                                     cq_list([cq_N(ids.h(h)) for h in op.get("partials", [])], "N"))
@@ -726,6 +785,18 @@ def monitor_step(op, before, o):
             own = op["op"] == "create" and fold(tuple(m["path"].split("/"))) in op_target(op)
             out.append(({"class": "listed-incomplete", "cause": kind, "spelling": spelled, "own_create": own},
                         "model %s: layer %s is %s after %s" % (m["path"], d, kind, op["op"])))
+    # every blob file holds the content its name is the hash of (re-hashed after every operation), used or not
+    was = {b["name"]: b["sha"] for b in before["blobs"]}
+    for b in st["blobs"]:
+        mm = re.match(r"^sha256[:-]([0-9a-fA-F]{64})$", b["name"])
+        if mm and b["sha"] != mm.group(1).lower() and was.get(b["name"]) != b["sha"]:
+            used = any(re.sub(r"^sha256[:-]", "", l["digest"]) == mm.group(1) for m in readable for l in m["layers"] + [m["config"]])
+            out.append(({"class": "blob-corrupt", "referenced": used},
+                        "after %s the blob file %s holds content whose sha256 is %s" % (op["op"], b["name"], b["sha"])))
+    # a request that ended with a read error in its body leaves nothing behind
+    if op.get("abort") is not None and st != before:
+        out.append(({"class": "aborted-request-trace", "op": op["op"]},
+                    "the %s request whose body broke off after %d bytes changed the store" % (op["op"], op["abort"])))
     # no two files of the store are one file: an operation on one model would alter the other
     for e in st["manifests"] + st["blobs"]:
         if e.get("linked") or e.get("symlink") is not None:
@@ -783,9 +854,6 @@ def monitor_step(op, before, o):
             out.append(({"class": "prune-empty-dirs"}, "start-up prune left %d empty manifest directories" % st["empty_dirs"]))
     if "panic" in o:
         out.append(({"class": "panic", "op": op["op"]}, "handler panicked: %s" % o["panic"]))
-    if op["op"] == "startup" and any(l.get("top") for l in st.get("links", [])) and any(b["name"].startswith("sha256:") for b in st["blobs"]):
-        # fixBlobs walked a blobs/ that is a symbolic link: nothing was renamed (fixes/C04-fixblobs-symlink.patch)
-        out = [(dict(sig, legacy_unmigrated=True), what) for sig, what in out]
     return out
 
 
@@ -849,7 +917,8 @@ def run(ctx):
     ctx.rule = ("cases = histories of API operations on a fresh store: blob uploads (digest spelled sha256:<hex>, sha256-<hex>, upper-case), "
                 "create from uploaded GGUF files (plain, adapter, projector, with auto-detected chat template, with trailing bytes) and FROM "
                 "existing/missing/case-variant models with system/template/params/license/messages overrides drawn from small pools so that layers "
-                "are shared, copy, delete, start-up prune; names over hosts/namespaces/models/tags incl. case variants of names already used. "
+                "are shared, copy, delete, start-up prune; blob uploads and create requests whose body ends with a read error after 0 / a few / "
+                "> 2^20 bytes, placed before creates; names over hosts/namespaces/models/tags incl. case variants of names already used. "
                 "non-trivial = the history changed the store in >= 3 steps; distinct = by canonical JSON of the history")
     ctx.trusted = ["Coq 8.16.1 kernel + vm_compute", "hand-written model coq/Store/{Fs,Ops}.v tied to the code by this differential run only",
                    "Go harness harness/cmd/c04 (exported API of /repo only: Server.GenerateRoutes, server.Serve, ggml.WriteGGUF), python generator/monitor",
@@ -879,7 +948,7 @@ def run(ctx):
             hists.append(json.load(open(os.path.join(cdir, f)))["ops"])
             klasses.append("corpus:" + f)
     for i in range(n_hist):
-        klass = rng.choice(["mixed", "mixed", "spelling", "long"]) if i >= (6 if ctx.quick() else 150) else "pull"
+        klass = rng.choice(["mixed", "mixed", "spelling", "long", "abort"]) if i >= (6 if ctx.quick() else 150) else "pull"
         n_ops = rng.randint(4, 10) if klass != "long" else rng.randint(14, 28)
         hists.append(gen_history(rng, fx, n_ops, klass))
         klasses.append(klass)
@@ -905,8 +974,6 @@ def run(ctx):
             small = shrink(ctx, binp, h[:i + 1], sig)
             ctx.violation(sig, what, {"history": [describe(o) for o in small], "found_in_class": kl, "step": i,
                                       "how_to_replay": "python3 check.py C04 --replay <this file>", "ops": strip(small)})
-        if any(sig.get("legacy_unmigrated") for _, sig, _ in monitor_history(h, ob)):
-            continue  # reported above; the model describes the repaired fixBlobs
         try:
             items.append(render_history(fx, h, ob))
             item_idx.append(hi)
